@@ -96,6 +96,7 @@ type Profile struct {
 	KeyKind     string
 
 	N0, Growth int
+	STHClock   string
 	Mix        entryMix
 	DestKind   string // empty | prefix | full | gap
 	Stored     [][2]int
@@ -211,6 +212,8 @@ type World struct {
 
 	cancelsLeft, lostLeft, crashesLeft, restartsLeft int
 	growthLeft                                       int
+	sthBase                                          time.Time
+	growths                                          int
 	unhung                                           bool
 	settling                                         bool
 	settleRestarts                                   int
@@ -406,6 +409,14 @@ func (w *World) Init(s *kernel.Sim) {
 	p.Restarts = t.Range(0, 3)
 	p.SeqWeight = t.Range(1, 6)
 	p.Budget = t.Range(40, 320)
+	// the signer's clock behind the tree heads: honest, stuck (every head carries one timestamp - heads issued within
+	// one millisecond), or stepped back at each growth (signer fail-over with skewed clocks). The property speaks of
+	// sizes and proofs only: what the heads say about time excuses nothing.
+	p.STHClock = "honest"
+	if t.Chance(1, 4) {
+		p.STHClock = []string{"stuck", "back"}[t.Intn(2)]
+	}
+	w.sthBase = time.Now()
 	w.cancelsLeft, w.lostLeft, w.crashesLeft, w.restartsLeft, w.growthLeft = p.Cancels, p.Lost, p.Crashes, p.Restarts, p.Growth
 	if w.mode.Ctl {
 		w.ctlProfile()
@@ -487,9 +498,9 @@ func (w *World) build() {
 	w.opts = core.OptionsFromConfig(cfg)
 	w.opts.StartDelay = p.StartDelay
 
-	s.Logf("profile id=%s mode=%s cont=%v batch=%d fetch=%d submit=%d chan=%d start=%d end=%d nocheck=%v tree=%d slash=%v delay=%v key=%s n0=%d growth=%d mix=%+v dest=%s stored=%v integrated=%d src=%s forkAt=%d forkSize=%d faults=%s cancels=%d lost=%d crashes=%d restarts=%d budget=%d",
+	s.Logf("profile id=%s mode=%s cont=%v batch=%d fetch=%d submit=%d chan=%d start=%d end=%d nocheck=%v tree=%d slash=%v delay=%v key=%s n0=%d growth=%d mix=%+v dest=%s stored=%v integrated=%d src=%s forkAt=%d forkSize=%d faults=%s cancels=%d lost=%d crashes=%d restarts=%d budget=%d sthclock=%s",
 		p.IDFunc, p.RunMode, p.Continuous, p.BatchSize, p.Fetchers, p.Submitters, p.ChannelSize, p.StartIndex, p.EndIndex, p.NoCheck, p.TreeID, p.Slash, p.StartDelay, key.Name, p.N0, p.Growth, p.Mix,
-		p.DestKind, p.Stored, p.Integrated, p.SrcMode, p.ForkAt, p.ForkSize, fmtFaults(p.Fault), p.Cancels, p.Lost, p.Crashes, p.Restarts, p.Budget)
+		p.DestKind, p.Stored, p.Integrated, p.SrcMode, p.ForkAt, p.ForkSize, fmtFaults(p.Fault), p.Cancels, p.Lost, p.Crashes, p.Restarts, p.Budget, p.STHClock)
 	if !s.Timed { // timed mode starts the controller in TimedRun, once TimedDecide is installed
 		w.startIncarnation("initial")
 	}
@@ -827,6 +838,14 @@ func (w *World) answerSrc(inc *incarnation, c *srcCall, d kernel.Decision) {
 				s.Probe("sth.stale.smaller-than-destination")
 			}
 		}
+		switch w.prof.STHClock {
+		case "stuck":
+			now = w.sthBase
+			s.Probe("sth.clock.stuck")
+		case "back":
+			now = w.sthBase.Add(-time.Duration(w.growths) * time.Second)
+			s.Probe("sth.clock.back")
+		}
 		body, root := w.src.STH(now, size, bad)
 		c.Status, c.Body = 200, body
 		cut()
@@ -1094,6 +1113,7 @@ func (w *World) Options(s *kernel.Sim) []kernel.Option {
 			k := s.T.Range(1, min(w.growthLeft, 12))
 			w.growthLeft -= k
 			w.src.Size += k
+			w.growths++
 			s.Logf("source grows by %d to %d", k, w.src.Size)
 		}})
 	}
